@@ -363,3 +363,60 @@ def reads_that_succeed(run):
             prove('%s:no-undefined-name-for-a-read-that-succeeds' % label, not got, clause='lint reports %r for\n%s' % (got, text), path=path)
             core.RUN.concretise = None
     core.explore(lambda: None, lambda p, out: go(p))
+
+
+STAR_MODULES = {
+    'with_all.py': '__all__ = ["_hidden", "shown"]\n_hidden = 1\nshown = 2\nnot_listed = 3\n',
+    'with_all_tuple.py': '__all__ = ("t_one", "_t_two")\nt_one = 1\n_t_two = 2\nt_three = 3\n',
+    'without_all.py': 'plain = 1\n_private = 2\n',
+    'reexporting.py': 'from with_all import *\n__all__ = ["shown", "own"]\nown = 4\n',
+}
+STAR_READS = [('with_all', ['_hidden', 'shown', 'not_listed']), ('with_all_tuple', ['t_one', '_t_two', 't_three']), ('without_all', ['plain', '_private']),
+              ('reexporting', ['shown', 'own', '_hidden', 'not_listed'])]
+
+
+@harness(['C01', 'C03'], 'supp.scope.SourceScope.resolve_star_imports [what a star import binds, against CPython]',
+         bounded='4 project modules (with __all__ as a list and as a tuple, listing underscore names and leaving public ones out; without __all__; '
+                 're-exporting a star import under an __all__ of its own) x a read of every name of theirs after `from m import *`, each run under CPython')
+def star_import_names(run):
+    """BOUNDED: after `from m import *` a read of name n is reported undefined by lint exactly when CPython raises NameError for it: a module's
+    __all__ (a literal list or tuple of strings) decides what is copied, underscore names included; without it every name that does not start
+    with an underscore.  Not counted as proved."""
+    import os
+    import shutil
+    import subprocess
+    import sys
+    import tempfile
+    import supp.linter as L
+    import supp.project as Pj
+
+    def go(path):
+        top = tempfile.mkdtemp(prefix='supp-c01-')
+        try:
+            for fn, text in STAR_MODULES.items():
+                with open(os.path.join(top, fn), 'w') as f:
+                    f.write(text)
+            for mod, names in STAR_READS:
+                for n in names:
+                    text = 'from %s import *\nprint(%s)\n' % (mod, n)
+                    r = subprocess.run([sys.executable, '-c', text], cwd=top, capture_output=True, text=True, timeout=60,
+                                       env=dict(os.environ, PYTHONPATH=top, PYTHONDONTWRITEBYTECODE='1'))
+                    runs = r.returncode == 0
+                    if not runs and 'NameError' not in r.stderr:
+                        prove('%s.%s:witness-runs-or-raises-NameError' % (mod, n), False, kind='lemma', clause=r.stderr[-200:], path=path)
+                        continue
+                    got = [d[:2] for d in L.lint(Pj.Project([top]), text, os.path.join(top, 'edited.py')) if d[0] in ('E02', 'E42')]
+                    ok = (got == []) if runs else (got == [('E02', 'Undefined name: %s' % n)])
+                    if not ok:
+                        core.RUN.concretise = lambda model, ob, text=text: {'input': text, 'script': (
+                            'import sys, os, tempfile; sys.path.insert(0, %r)\nd = tempfile.mkdtemp()\nfor fn, t in %r.items(): open(os.path.join(d, fn), "w").write(t)\n'
+                            'from supp.linter import lint\nfrom supp.project import Project\ntext = %r\n'
+                            'print([x[:2] for x in lint(Project([d]), text, os.path.join(d, "edited.py"))])\n'
+                            'print("REPRODUCED: lint and CPython disagree on whether the star import binds the name (CPython: %s)")\n') % (
+                                core.REPO, STAR_MODULES, text, 'the read succeeds' if runs else 'NameError')}
+                    prove('from %s import *: %s' % (mod, n), ok,
+                          clause='lint reports Undefined name exactly when CPython raises NameError [CPython: %s; lint: %r]' % ('runs' if runs else 'NameError', got), path=path)
+                    core.RUN.concretise = None
+        finally:
+            shutil.rmtree(top, ignore_errors=True)
+    core.explore(lambda: None, lambda p, out: go(p))
